@@ -37,6 +37,7 @@ class Monitor(object):
 
     def __init__(self):
         self.violations = []
+        self.pull_answers_close = False
         self.lock = threading.Lock()
         self.counts = {
             "host_packets": 0, "dev_packets": 0, "opens": 0, "okays_checked": 0, "wrtes_checked": 0, "clses_checked": 0,
@@ -88,6 +89,10 @@ class Monitor(object):
             for st in rec.streams:
                 if not (st.dev_closed and st.host_closed):
                     self.counts["streams_abandoned"] += 1
+                if self.pull_answers_close and rec.name == "pull" and not normal and st.dev_closed and not st.host_closed and not st.refused and st.dest == b"sync:" and st is rec.streams[0]:
+                    # pull closes its stream on the way out whatever happened (its `finally`): a CLSE the device has sent on it is owed exactly one CLSE.
+                    # Only consulted where the transport itself works (no injected faults): opt-in per check.
+                    self.flag("C04", "closure", "pull ended with an exception without answering the device's CLSE on its stream local=%d (the host had read %d of the device's packets on it)" % (st.local, st.delivered), call=rec.name)
             return
         self.counts["calls_closed_checked"] += 1
         for st in rec.streams:
